@@ -212,6 +212,23 @@ CURRENT = [None]  # the schedule in progress, for explicit yield points in harne
 _REG = [None]  # registry of the schedule being built (for new_lock)
 
 
+class sequential:
+    """Context manager for running a component single-threaded with scheduler-aware locks: a thread that asks for a lock it
+    already holds gets RuntimeError("... self-deadlock") instead of hanging."""
+
+    def __enter__(self):
+        self.reg = Registry()
+        self.fac = lock_factory(self.reg)
+        self.fac.__enter__()
+        self.prev = _REG[0]
+        _REG[0] = self.reg
+        return self.reg
+
+    def __exit__(self, *a):
+        _REG[0] = self.prev
+        self.fac.__exit__()
+
+
 def new_lock():
     """A scheduler-aware lock for a component whose lock was created out of the factory's reach (e.g. a dataclass
     field whose default_factory captured the real threading.Lock at class definition).  None outside a schedule."""
